@@ -171,6 +171,7 @@ class C03(PropBase):
         "and was accepted by the JSON decoder (so the unmarshaller had to decide), or a fault fired before; distinct = distinct "
         "(operation digest, pre-state signature) pairs."
         ' Text inputs include Python-literal text whose mapping keys are not str.'
+        ' Positions typed bytes are also fed writable buffers and views (the result holds bytes of its own there).'
     )
     ASSUMPTIONS = ["conformance is the lenient structural notion of DESIGN §5.2 (subclass instances conform at scalar and class positions; "
                    "Literal membership by ==; exact builtin containers)"]
